@@ -214,8 +214,9 @@ int fiber_io_unlock_thread() {
 
 static inline int should_block(int fd) {
   assert(fd >= 0);
-  if (!thread_locked && fd_info && fd < max_fd &&
-      fd_info[fd].flags_ & (IO_FLAG_BLOCKING | IO_FLAG_WAITABLE)) {
+  if (!thread_locked && fd_info && fd >= 0 && fd < max_fd &&
+      (fd_info[fd].flags_ & (IO_FLAG_BLOCKING | IO_FLAG_WAITABLE)) ==
+          (IO_FLAG_BLOCKING | IO_FLAG_WAITABLE)) {
     return 1;
   }
   return 0;
